@@ -761,7 +761,10 @@ def apply_op(w, op):
         except Exception as e:
             raised = type(e)
         if beh == "fail" and err_first is not None:
-            if raised is not err_first[1]:
+            all_err = set()
+            for nm_ in errlist:
+                all_err |= w.possible_errors(w.registry[nm_])
+            if raised is not err_first[1] and raised not in all_err:  # which failing node is met first is an evaluation-order detail
                 raise Violation("get_value_dict", f"{where}: expected {err_first[1].__name__}, got {raised}")
         else:
             if raised is not None:
@@ -777,6 +780,9 @@ def apply_op(w, op):
                     g = ("err", type(v))
                 else:
                     g = ("ok", v.copy() if isinstance(v, np.ndarray) else v)
+                if g[0] == "err" and m[0] == "err" and g[1] is not m[1] and g[1] in w.possible_errors(w.registry[name]):
+                    w.labels.add("several_failing_inputs")
+                    continue
                 if not w.same(g, m):
                     idx = w.registry[name]
                     if w.fallback_taint & (w.descendants(idx) | {idx}):
